@@ -138,7 +138,14 @@ func toX(e *yang.Entry, parent *model.XNode, budget *int, depth int) *model.XNod
 	x.Type = XTypeOf(e.Type)
 	if e.Dir != nil {
 		x.Kids = map[string]*model.XNode{}
-		for k, c := range e.Dir {
+		// sorted: the walk calls library functions whose seams are logged
+		keys := make([]string, 0, len(e.Dir))
+		for k := range e.Dir {
+			keys = append(keys, k)
+		}
+		sort.Strings(keys)
+		for _, k := range keys {
+			c := e.Dir[k]
 			if c == nil {
 				continue
 			}
